@@ -14,13 +14,13 @@ BUDGET = {"quick": 120, "thorough": 1500}
 ANCHORED = ["selection_rate", "mean_prediction", "true_positive_rate", "_construct_annotated_metric_function"]
 RULE = ("random datasets n<=25, 1..4 groups (skewed: single-row groups frequent), integer weights 1..5; for each the "
         "weighted call is compared with (a) the same rows repeated weight-many times unweighted, (b) repeated rows with "
-        "all-ones weights vs no weights, (c) weights scaled by 0.5, 3, 1e-3, 1e6 - for the 4 rates (all label encodings "
+        "all-ones weights vs no weights, (c) weights scaled by 0.5, 3, 1e-3, 1e6, 1e-10, 1e-15, 1e12 - for the 4 rates (all label encodings "
         "of C14), selection_rate, mean_prediction, a dict MetricFrame with per-metric sample_params (by_group, overall, "
         "difference, ratio) and the 6 named fairness metrics; result shape (scalar vs array) compared too. "
         "distinct = distinct (n, sorted group sizes, weight multiset, encoding); non-trivial = some weight > 1.")
 ASSUMPTIONS = ["weights are positive integers (multiplicity) or positive real multiples of them",
                "comparison tolerance 1e-11 relative (floating-point summation order differs between the two sides)"]
-SCALES = [0.5, 3.0, 1e-3, 1e6]
+SCALES = [0.5, 3.0, 1e-3, 1e6, 1e-10, 1e-15, 1e12]
 
 
 def cases(tier, seed):
